@@ -1053,7 +1053,10 @@ Qed.
 (* Part 7: after a metadata reset nothing is known                                                     *)
 (* ================================================================================================== *)
 Theorem C20_after_reset : forall s t p, ~ known (clear_metadata s) t p.
-Proof. intros s t p [ps [H _]]. cbn in H. discriminate H. Qed.
+Proof.
+  intros s t p [ps [H _]]. unfold partitions_for, clear_metadata in H.
+  cbn [topic_partitions assoc_bytes] in H. discriminate H.
+Qed.
 
 Corollary C20_after_reset_offsets : forall s topics time, offset_reqs (clear_metadata s) topics time = [].
 Proof.
